@@ -13,3 +13,12 @@ func vfYield(point string) {
 		(*h)(point)
 	}
 }
+
+// vfBroadcastHook, when set, receives every ownership announcement with the recipients the code selected.
+var vfBroadcastHook atomic.Pointer[func(from string, recipients []string, data []byte)]
+
+func vfBroadcast(from string, recipients []string, data []byte) {
+	if h := vfBroadcastHook.Load(); h != nil {
+		(*h)(from, append([]string(nil), recipients...), append([]byte(nil), data...))
+	}
+}
